@@ -138,21 +138,27 @@ def run_stats(task):
             if abs(rs.rel_err - want) > tol / abs(float(mu)) + 1e-12 * want:
                 out["vio"].setdefault(tag + "rel_err", (
                     seq, "rel_err %r, exact %r" % (rs.rel_err, want)))
-        # the same values fed in chunks give the bit-identical state
+        # the same values fed in chunks (a chunked implementation may round
+        # differently, so: same accuracy requirement, not bit equality)
         if n >= 2:
             r2 = RunningStatistics()
-            pat = out["states"] % 3
+            pat = out["states"] % 4
             i = 0
             while i < n:
-                k = 2 if (i + pat) % 2 == 0 and i + 2 <= n else 1
+                k = (1, 2, 3, 2)[(i + pat) % 4]
+                k = min(k, n - i)
                 if k == 1 and pat == 2:
                     r2.update(seq[i])
                 else:
                     r2.update_from_it(iter(seq[i:i + k]))
                 i += k
-            if (r2.count, r2.mean, r2.M2) != (rs.count, rs.mean, rs.M2):
+            if r2.count != n or abs(r2.mean - float(mu)) > \
+                    4 * n * EPS * scale + 1e-300 or not close_var(
+                        r2.var, var, mu, n, scale):
                 out["vio"].setdefault(tag + "chunking", (
-                    seq, "update_from_it in chunks gives another state"))
+                    seq, "fed in chunks: count %r mean %r var %r, whole "
+                    "sample: %d %r %r" % (r2.count, r2.mean, r2.var, n,
+                                          float(mu), float(var))))
 
     def rec(seq, state):
         rs = RunningStatistics()
@@ -232,10 +238,15 @@ def run_cov(task):
                         seq, "sample_covar %r, exact %r"
                         % (rc.sample_covar, want)))
                 r2 = RunningCovariance()
-                r2.update_from_it([x for x, _ in seq], [y for _, y in seq])
-                if (r2.count, r2.xmean, r2.ymean, r2.C) != st:
+                h = n // 2
+                r2.update_from_it([x for x, _ in seq[:h]],
+                                  [y for _, y in seq[:h]])
+                r2.update_from_it([x for x, _ in seq[h:]],
+                                  [y for _, y in seq[h:]])
+                if r2.count != n or abs(r2.covar - float(cov)) > bound:
                     out["vio"].setdefault(tag + "chunking", (
-                        seq, "update_from_it gives another state"))
+                        seq, "fed in two chunks: covar %r, exact %r"
+                        % (r2.covar, float(cov))))
         if n == task["depth"]:
             return
         for p in pa:
